@@ -1,5 +1,6 @@
 import PycsepVerif.Model.JsonText
 import PycsepVerif.Model.DecimalText
+import PycsepVerif.Model.FloatText
 /-
   The numeral of a finite float in a JSON file (stage 2 of the text layer of C18): an executable instance `pyFloatText` of
   `JsonText.FloatText`.
@@ -43,46 +44,13 @@ def absToBits (y : Rat) : Nat :=
   if e < -1022 then (y / pow2 (-1074)).floor.toNat
   else ((e + 1023).toNat) * two52 + ((y / pow2 (e - 52)).floor.toNat - two52)
 
-def trimZerosRev : List Char → List Char
-  | [] => []
-  | c :: cs => if c = '0' then trimZerosRev cs else c :: cs
-
-/-- drop trailing zeros (keep one digit) -/
-def trimZeros (ds : List Char) : List Char :=
-  match (trimZerosRev ds.reverse).reverse with
-  | [] => ['0']
-  | r => r
-
-/-- the shortest digits of a positive finite double: (digit characters without trailing zeros, decimal exponent of the
-    first digit).  `reprValue x` has at most 17 significant digits, so `reprValue x / 10^(k − 16)` is an integer. -/
-def shortDigits (x : Rat) : List Char × Int :=
-  let r := DecimalText.reprValue x
-  let k := DecimalText.ilog10 r
-  let d17 := (r / DecimalText.pow10 (k - 16)).floor.toNat
-  (trimZeros (natDigits d17), k)
-
-def pad2 (ds : List Char) : List Char := if ds.length < 2 then '0' :: ds else ds
-
-/-- `format_float_short` for format code 'r' on the digits `ds` with decimal exponent `k` -/
-def formatShort (ds : List Char) (k : Int) : List Char :=
-  if k < -4 ∨ k ≥ 16 then
-    let mant := match ds with
-      | [] => []
-      | [d] => [d]
-      | d :: rest => d :: '.' :: rest
-    mant ++ ('e' :: (if k < 0 then '-' else '+') :: pad2 (natDigits k.natAbs))
-  else if k < 0 then
-    '0' :: '.' :: (List.replicate (k.natAbs - 1) '0' ++ ds)
-  else
-    let n := k.toNat + 1                        -- digits in front of the point
-    if ds.length ≤ n then ds ++ (List.replicate (n - ds.length) '0' ++ ['.', '0'])
-    else ds.take n ++ ('.' :: ds.drop n)
-
-/-- `float.__repr__` of the finite double with bit pattern `b` -/
+/-- `float.__repr__` of the finite double with bit pattern `b`: the shortest digits in Python's layout are
+    `FloatText.floatStr` (Model/FloatText.lean, property C14: proved to denote `reprValue` and to read back); the sign of a
+    zero, which `floatStr` does not represent, is written here (`-0.0`). -/
 def pyReprF (b : Nat) : List Char :=
   let a := bitsToAbs b
-  let body := if a = 0 then ['0', '.', '0'] else let p := shortDigits a; formatShort p.1 p.2
-  if bitsNeg b then '-' :: body else body
+  if a = 0 then (if bitsNeg b then ['-', '0', '.', '0'] else ['0', '.', '0'])
+  else FloatText.floatStr (if bitsNeg b then -a else a)
 
 /-- `float(lexeme)` -/
 def pyReadF (lx : List Char) : Option F64 :=
